@@ -17,6 +17,8 @@ def run(repo, res, tier):
     effects.rule_e3(repo, res)
     effects.rule_e4(repo, res)
     effects.rule_e5(repo, res)
+    from .. import hookrules
+    hookrules.rule_hook_tail(repo, res)
     effects.rule_estate(repo, res, families=("PVLParser",), floor=2)
     an = parserules.analyse(repo)
     t4 = parserules.add_rule(res, an, "T4")
